@@ -68,6 +68,30 @@ func declaredConsts(P *Program, rel, typ string) map[int64]string {
 	return out
 }
 
+// be32Arg: v is a big-endian 32-bit load of a byte slice — binary.BigEndian.Uint32(x) or a repository
+// helper whose only return is that load of its own parameter — and returns x.
+func be32Arg(v ssa.Value) ssa.Value {
+	c := asCall(v)
+	if c == nil {
+		return nil
+	}
+	cal := c.Common().StaticCallee()
+	if cal == nil {
+		return nil
+	}
+	if fnPkgPath(cal) == "encoding/binary" && cal.Name() == "Uint32" && len(c.Common().Args) == 2 {
+		return c.Common().Args[1]
+	}
+	if inRepo(cal) && cal.Blocks != nil && len(cal.Params) == 1 && len(c.Common().Args) == 1 {
+		if ret := singleReturn(cal); ret != nil && len(ret.Results) == 1 {
+			if inner := be32Arg(ret.Results[0]); inner == ssa.Value(cal.Params[0]) {
+				return c.Common().Args[0]
+			}
+		}
+	}
+	return nil
+}
+
 func checkC10(P *Program, r *Result, tier string) {
 	r.Explanation = "On the TTHeader decode call tree: NO-PANIC (E1: every slice/index in range, no wrapping narrow arithmetic, no panicking operation), " +
 		"VALIDATE (every success return of Decode is dominated by the magic test, has the declared size proved within [2, 65536] and equal to 4× the size field, and follows a nil result of the protocol allow-list whose cases are declared ProtocolID constants and whose default is an error), " +
@@ -313,8 +337,8 @@ func checkC10(P *Program, r *Result, tier string) {
 				if and, isA := bo.X.(*ssa.BinOp); isA && and.Op == token.AND {
 					m, okm := constInt(and.Y)
 					v, okv := constInt(bo.Y)
-					if c := staticCallNamed(and.X, "Uint32"); c != nil && okm && okv && uint32(m) == 0xffff0000 && uint32(v) == 0x10000000 {
-						if d := newAnalysis(P).fa(fn).sliceDesc(c.Common().Args[1]); d != nil && d.Root == ssa.Value(fn.Params[0]) {
+					if arg := be32Arg(and.X); arg != nil && okm && okv && uint32(m) == 0xffff0000 && uint32(v) == 0x10000000 {
+						if d := newAnalysis(P).fa(fn).sliceDesc(arg); d != nil && d.Root == ssa.Value(fn.Params[0]) {
 							if o, isC := d.Off.constVal(); isC && o.Int64() == 4 {
 								ok = true
 							}
@@ -822,6 +846,20 @@ func checkC06(P *Program, r *Result, tier string) {
 	}
 	sectionsRule(P, r, wkv)
 	numHeadersRule(P, r, cluster)
+	// the frame travels through the buffered writer and reader: their rules (C05, C04) are re-run here
+	for _, sub := range []struct {
+		name string
+		f    ruleFunc
+	}{{"STREAM-W", checkC05}, {"STREAM-R", checkC04}} {
+		tmp := newResult(r.Prop)
+		sub.f(P, tmp, tier)
+		r.Fatal = append(r.Fatal, tmp.Fatal...)
+		for _, o := range tmp.Obls {
+			o.Rule = r.Prop + "/" + sub.name
+			r.Obls = append(r.Obls, o)
+			r.Funcs[o.Func] = true
+		}
+	}
 	// decode side
 	decode, dscope := ttDecodeScope(P, r)
 	if decode != nil {
@@ -1542,7 +1580,8 @@ func numHeadersRule(P *Program, r *Result, cluster []*ssa.Function) {
 							continue
 						}
 						for _, r2 := range *ex.Referrers() {
-							if bo, ok := r2.(*ssa.BinOp); ok && bo.Op == token.EQL {
+							// `if key == K { continue }` or the body wrapped in `if key != K { … }`
+							if bo, ok := r2.(*ssa.BinOp); ok && (bo.Op == token.EQL || bo.Op == token.NEQ) {
 								if k, ok := bo.Y.(*ssa.Const); ok && k.Value != nil && k.Value.Kind() == constant.String {
 									skipped = append(skipped, constant.StringVal(k.Value))
 								}
